@@ -1106,11 +1106,11 @@ def rule_nhcwb16_restrictions(repo, rep, rule="C02-w"):
             rep.check(roles[role][0], rule, site, f"{role}: `{roles[role][2]}` compares the tensor shape with each operator's view", roles[role][1])
     g = m.func("_avoid_nhcwb16_for_memory_only")
     gsite = "ethosu/vela/graph_optimiser_util.py:_avoid_nhcwb16_for_memory_only"
-    cmps = [c for c in ast.walk(g) if isinstance(c, ast.Compare) and str(norm(c.left)).endswith(".type")]
+    cmps = [c for c in ast.walk(g) if isinstance(c, ast.Compare) and len(c.ops) == 1 and (str(norm(c.left)).endswith(".type") or str(norm(c.comparators[0])).endswith(".type"))]
     ok = False
     for c in cmps:
         r = c.comparators[0]
-        if isinstance(c.ops[0], ast.Eq) and str(norm(r)) == "Op.Memcpy":
+        if isinstance(c.ops[0], ast.Eq) and "Op.Memcpy" in (str(norm(r)), str(norm(c.left))):
             ok = True
         if isinstance(c.ops[0], ast.In):
             tup = r if isinstance(r, (ast.Tuple, ast.List, ast.Set)) else (m.assign(r.id) if isinstance(r, ast.Name) and r.id in m.assigns else None)
